@@ -1,3 +1,4 @@
 import MeddlyModel.Basic.Val
+import MeddlyModel.Basic.Report
 import MeddlyModel.Core.DD
 import MeddlyModel.Core.Canon
